@@ -286,6 +286,9 @@ func genConcPlan(prop string, seed uint64, tier string) *Plan {
 	}
 	p.Clients = append(p.Clients, env) // last list = environment
 	p.Extra["env"] = 1
+	if prop == "C05" && r.Bool(1, 4) {
+		p.Extra["cancelAtWrite"] = int64(r.Pick(1, 2, 3, 5, 8, 13))
+	}
 	if len(p.Ops) > 0 && ((prop != "C04" && r.Bool(1, 4)) || (prop == "C04" && r.Bool(1, 6))) {
 		// the concurrent phase starts right after a clean restart: clients (and the GC request)
 		// arrive while Bucket.open's background goroutine is still loading - or, with the hint
@@ -325,6 +328,12 @@ func (x *concExec) maybeInject(g *Gen, ev *simrt.FSEvent) {
 		return
 	}
 	x.gcWrites++
+	if k := x.plan.Extra["cancelAtWrite"]; k > 0 && x.gcWrites == k && x.plan.Prop == "C05" {
+		// a cancel request placed inside the pass: right before its k-th relocation write, i.e. in
+		// the middle of a source file (a legal instant for an administrator's request)
+		gcCancel(g, x.plan.Cfg.GCWeb, x.plan.Cfg.Served[0])
+		x.out.probe("gc-cancel-placed-at-relocation-write")
+	}
 	if x.slowPath != "" {
 		// (the previous event's write is on disk by now)
 		x.slowCovered = x.slowCovered || x.slowCoverNext
